@@ -105,7 +105,8 @@ def c01_f1(tier):
                 if "case" in sub:
                     items.append(Open(sw=al.call("switch"), name="section"))
                     items.append(Text("\n  "))
-                items.append(element(al, sub))
+                # the static attribute that tal:attributes may keep (`default`) is written with character entities
+                items.append(element(al, sub, sattr=(("class", {"v": "R&amp;D 1 &lt; 2"}),) if "attrs" in sub else ("class",)))
                 items.append(probe())
                 items.append(CLOSE)
                 if "case" in sub:
@@ -325,6 +326,20 @@ def c05_siblings(tier, rnd):
                      Text("2", pipe(var(n), const(S("u0")))),
                      Open(cond=var(n) if n != "x" else pipe(var(n), const(B(True))), sattr=[]), Text("3"), CLOSE]
             progs.append(program(items, al.dom, fam="C05.sib:%s:%s" % (k, n)))
+    # one define statement with several parts of mixed scope: `global` holds for its own part only
+    pr = lambda: Text("p", pipe(var("x"), const(S("u0"))), pipe(var("len"), const(S("u0"))), pipe(var("id"), const(S("u0"))))   # noqa: E731
+    for scopes in ((True, False), (False, True), (True, False, True), (False, True, False), (True, True, False)):
+        for pre_bound in (False, True):
+            al = Alloc(tier)
+            names = ["x", "len", "id"][:len(scopes)]
+            parts = [(g, n, al.call("define", [S("a"), NONE] if tier != "quick" else [S("a")])) for g, n in zip(scopes, names)]
+            items = [pr()]
+            if pre_bound:
+                items += [Open(define=[(False, n, const(S("b"))) for n in names], sattr=[]), pr()]
+            items += [Open(define=parts, sattr=[]), pr(), CLOSE, pr()]
+            if pre_bound:
+                items += [CLOSE, pr()]
+            progs.append(program(items, al.dom, fam="C05.mixed:%s:%s" % ("".join("G" if g else "L" for g in scopes), pre_bound)))
     return progs, pool
 
 
@@ -513,6 +528,10 @@ def host(site, e, al):
     elif site == "attrs":
         el = Open(sattr=["class"], dattr=[("class", e), ("id", al.call("attrs", [S("b")]))])
     elif site == "text":
+        if e["x"] == "str":
+            # ${string:...${..}..} followed by another ${..} in the same text is read as ONE string expression (longest
+            # candidate that compiles): the second interpolation stands in a text node of its own
+            return [pre, Open(), Text("k", e), Open(tag="ns"), Text("m", al.call("content", [S("b")])), CLOSE, CLOSE, post]
         return [pre, Open(), Text("k", e, "m", al.call("content", [S("b")])), CLOSE, post]
     elif site == "onerror":
         return [pre, Open(oe=(False, e)), Text("k", al.call("content", [S("b"), EXC("ZeroDivisionError")])), CLOSE, post]
@@ -541,6 +560,24 @@ def c04_family(tier, rnd):
             items = host(site, e, al)
             progs.append(program(items, al.dom, init={"x": S("c")} if sname.startswith("wrapvar") else {},
                                  fam="C04:%s@%s" % (sname, site)))
+    # the same expression text several times in one string: every occurrence is an evaluation of its own
+    vals = [S("a"), S("b")] if tier == "quick" else [S("a"), S("b"), NONE, EXC("KeyError")]
+    for where in ("text", "string-content", "string-attr", "pipe-text", "two-elements"):
+        al = Alloc(tier)
+        c = al.call("content", vals)
+        pre = Text("pre\n ")
+        if where == "text":
+            items = [pre, Open(), Text("a", c, "b", c, "c", c), CLOSE]
+        elif where == "string-content":
+            items = [pre, Open(sub=("content", False, strx(litp(), c, litp(), c)))] + [Text("old"), CLOSE]
+        elif where == "string-attr":
+            items = [pre, Open(sattr=["class"], dattr=[("title", strx(litp(), c, litp(), c, litp()))]), Text("k"), CLOSE]
+        elif where == "pipe-text":
+            n = var("nope")
+            items = [pre, Open(), Text("a", pipe(n, c), "b", pipe(n, c)), CLOSE]
+        else:
+            items = [pre, Open(sub=("content", False, c)), Text("old"), CLOSE, Open(sub=("content", False, c)), Text("old"), CLOSE, Text("t", c)]
+        progs.append(program(items + [Text("post")], al.dom, fam="C04:same-text-twice@%s" % where))
     return progs
 
 
@@ -864,6 +901,18 @@ def c09_family(tier, rnd):
         main = [Text("pre")] + [Open(um=(None, 1, False), name="section", sattr=[]), Text("ign")] + \
             sum([mk_fill(s, s + "1") for s in fl], []) + [CLOSE, Text("post")]
         build(main, lib2, al, "P7:" + "".join(fl), init={"x": S("a")})
+    # P9: an assignment made inside the macro (code block) does not reach the caller; one made inside a filler does
+    # not reach the macro or the caller either (both run on a copy of the scope)
+    for where in ("macro", "filler", "both"):
+        for bound in (False, True):
+            al = Alloc(tier)
+            m = [Open(dm="m1", name="div", sattr=[]), Text("M", *_P())] + \
+                ([Code("x", al.call("define", [S("a")]))] if where in ("macro", "both") else []) + \
+                [Text("m", *_P()), Open(ds="a", name="i", sattr=[]), Text("Da"), CLOSE, Text("n", *_P()), CLOSE]
+            fill = [Open(fs="a", name="b", sattr=[])] + ([Code("x", al.call("define", [S("b")]))] if where in ("filler", "both") else []) + \
+                [Text("F", *_P()), CLOSE]
+            main = [Text("pre", *_P())] + [Open(um=("m1", 1, False), name="section", sattr=[]), Text("ign")] + fill + [CLOSE] + [Text("post", *_P())]
+            build(main, m, al, "P9:%s:%s" % (where, bound), init={"x": S("c")} if bound else None)
     # P8: macroname is bound to the name used, inside the macro only (machine oracle only)
     al = Alloc(tier)
     m = [Open(dm="m1", name="div", sattr=[]), Text("M[", var("macroname"), "]"), CLOSE]
